@@ -173,6 +173,22 @@ def judge_roundtrip(tag, orig, back):
     return None
 
 
+def multi_readers(ml, ctx, text):
+    """Every way of reading all frames of one xyz text."""
+    from molli.chem import Molecule, Structure, CartesianGeometry
+    path = os.path.join(ctx.sub("multi"), "frames.xyz")
+    open(path, "w").write(text)
+    sig = lambda ms: [c10.mol_sig(m) for m in ms]
+    return [
+        ("Molecule.load_all_xyz", lambda: sig(Molecule.load_all_xyz(path))),
+        ("Structure.loads_all_xyz", lambda: sig(Structure.loads_all_xyz(text))),
+        ("CartesianGeometry.yield_from_xyz", lambda: sig(list(CartesianGeometry.yield_from_xyz(io.StringIO(text))))),
+        ("Molecule.yield_from_xyz", lambda: sig(list(Molecule.yield_from_xyz(io.StringIO(text))))),
+        ("ml.load_all", lambda: sig(ml.load_all(path, "xyz"))),
+        ("ml.loads_all", lambda: sig(ml.loads_all(text, "xyz"))),
+    ]
+
+
 def unit_cases(ml, rng):
     """(reader tag, unit name, callable returning coords array, expected coords)."""
     from molli.chem import Molecule, ConformerEnsemble
@@ -277,12 +293,35 @@ def run(ctx, rep):
                 if rng.random() < 0.5:
                     m.atoms[0].element = Element.Unknown
             objs.append(("mol", m))
+    # multi-frame texts whose frames are DIFFERENT geometries: same count with permuted / different elements, different
+    # counts, mixtures -- written frame by frame from distinct objects of the three geometry classes
+    from molli.chem import CartesianGeometry, Structure
+    perm_sets = [["O", "H", "H"], ["H", "O", "H"], ["H", "H", "O"], ["S", "H", "H"], ["H", "H", "S"], ["C", "N"], ["N", "C"],
+                 ["Cl"], ["Br"], ["F", "Cl", "Br", "I"], ["I", "Br", "Cl", "F"]]
+    for i in range(60 if not ctx.thorough else 400):
+        k = rng.randint(2, 4)
+        frames = []
+        mode = rng.choice(["perm", "perm", "mixed", "rand"])
+        base = rng.choice(perm_sets)
+        for j in range(k):
+            if mode == "perm":
+                syms = rng.choice([q for q in perm_sets if len(q) == len(base)])
+            elif mode == "mixed":
+                syms = rng.choice(perm_sets)
+            else:
+                syms = [rng.choice(c10.ELEMS) for _ in range(rng.randint(0, 4))]
+            cls = rng.choice([Molecule, Structure, CartesianGeometry])
+            g = cls(n_atoms=0, name=rng.choice(c10.NAMES))
+            for sym in syms:
+                g.add_atom(Atom(sym), [c10.rand_coord(rng) for _ in range(3)])
+            frames.append(g)
+        objs.append(("multi", frames))
     for p in ("dendrobine_xyz", "pentane_confs_xyz"):
         ms = Molecule.load_all_xyz(getattr(ml.files, p))
         objs.append(("mol", ms[0]))
     wcases, rcases, table, bases, meta = [], [], c10.MolTable(), [], []
     for kind, o in objs:
-        text = o.dumps_xyz()
+        text = "".join(f.dumps_xyz() for f in o) if kind == "multi" else o.dumps_xyz()
         lines = c10.to_lines(text)
         if not all(all(32 <= ord(c) < 127 for c in l) for l in lines):
             continue
@@ -296,8 +335,20 @@ def run(ctx, rep):
             if eb[0] != "ok" or eb[1].n_conformers != len(frames):
                 rep.violate("C08:xyz:ensemble-frames", f"ensemble of {len(frames)} frames read back as {eb}", {"kind": "ens", "text": text})
         v = judge_roundtrip("xyz", orig, back)
+        if kind == "multi" and not v:
+            # the same text through every multi-frame entry point (class-level and top-level)
+            for api, fn in multi_readers(ml, ctx, text):
+                rb = c10.run_limited(fn)
+                rep.count(f"multi:{api}")
+                v = judge_roundtrip(f"xyz:{api}", orig, rb)
+                if v:
+                    break
         rep.case(key="rt:" + text, sample={"kind": kind, "frames": len(frames), "atoms": len(orig[0][0]), "text": text[:120]})
         rep.count(f"roundtrip:{kind}:frames={len(frames)}")
+        if kind == "multi":
+            els = [tuple(f[0]) for f in orig]
+            rep.count("multi:" + ("same-count-different-order" if len({len(e) for e in els}) == 1 and len(set(els)) > 1
+                                  else "different-counts" if len({len(e) for e in els}) > 1 else "identical-elements"))
         rep.count(f"roundtrip:atoms={min(len(orig[0][0]), 6)}")
         if v:
             rep.violate(v[0], v[1], {"kind": "roundtrip", "text": text, "orig": orig})
